@@ -58,10 +58,31 @@ def _font(draw):
                 gn.append(n)
         pairs = list(draw(st.permutations([("A", "a"), ("period", "period"), ("Gamma", "de-cy"), ("A", "Gamma")]))) + [p for p in pairs[:2] if p not in (("A", "a"), ("period", "period"), ("Gamma", "de-cy"), ("A", "Gamma"))]
         chain = True
+    ambig = False
+    if not chain and draw(st.integers(0, 7)) == 0:
+        # a right-to-left letter whose only kerning is against a European digit (dropped by the writer as ambiguous in direction) beside a common-script pair:
+        # no kerning of that script survives
+        ambig = True
+        for n, u in (("bet-hb", 0x5D1), ("one", 0x31), ("period", 0x2E), ("hyphen", 0x2D), ("a", 0x61), ("acutecomb", 0x301)):
+            if n not in gn:
+                glyphs.append({"name": n, "width": 0 if n in MARKS else 500, "unicodes": [u], "contours": [[[0, 0, "line"], [100, 0, "line"], [100, 100, "line"]]], "anchors": []})
+                gn.append(n)
+        for g in glyphs:
+            if g["name"] in ("bet-hb", "a") and not any(a["name"] == "top" for a in g["anchors"]):
+                g["anchors"].append({"name": "top", "x": 250, "y": 700})
+            if g["name"] == "acutecomb" and not g["anchors"]:
+                g["anchors"] = [{"name": "_top", "x": 0, "y": 600}]
+        if draw(st.booleans()):
+            # ... in a font with a spacing mark: the kern lookups then carry a mark filtering class besides their rules
+            glyphs.append({"name": "sheva-hb", "width": 300, "unicodes": [0x5B0], "contours": [[[0, 0, "line"], [100, 0, "line"], [100, 100, "line"]]], "anchors": [{"name": "_top", "x": 0, "y": 600}]})
+            gn.append("sheva-hb")
+        pairs = [p for p in pairs if "bet-hb" not in p][:3] + [draw(st.sampled_from([("bet-hb", "one"), ("one", "bet-hb")])), ("period", "hyphen")]
     kern = [[a, b, -10 - i] for i, (a, b) in enumerate(pairs)]
-    spec = {"info": {"unitsPerEm": 1000}, "glyphs": glyphs, "kerning": kern, "lib": {"public.openTypeCategories": {n: ("mark" if n in MARKS else "base") for n in gn}}}
+    spec = {"info": {"unitsPerEm": 1000}, "glyphs": glyphs, "kerning": kern, "lib": {"public.openTypeCategories": {n: ("mark" if n in MARKS or n == "sheva-hb" else "base") for n in gn}}}
     mode = "all" if chain else draw(st.sampled_from(["none", "dflt", "some", "some", "all"]))
     tags = {"none": [], "dflt": [], "some": draw(st.lists(st.sampled_from(TAGS), unique=True, max_size=3)), "all": list(TAGS)}[mode]
+    if ambig and mode != "none":
+        tags = [t_ for t_ in tags if t_ != "hebr"]
     stmts = []
     for t in tags:
         stmts.append("languagesystem %s dflt;\n" % t)
@@ -83,6 +104,8 @@ def _case(draw):
     case = {"spec": draw(_font()), "module": draw(st.sampled_from(["ufoLib2", "defcon"]))}
     if draw(st.sampled_from([True, False, False])):
         case["first"] = draw(_font())
+    elif "public.skipExportGlyphs" not in case["spec"]["lib"] and draw(st.integers(0, 4)) == 0:
+        case["vf_default_second"] = True
     return case
 
 
@@ -141,7 +164,23 @@ def run_case(case, ctx):
         except Exception:
             pass
     with guard("compileTTF"):
-        t = ufo2ft.compileTTF(S.build(spec, module), useProductionNames=False, featureWriters=writers)
+        if case.get("vf_default_second"):
+            # a variable font whose default source is listed second and is the only one that carries feature text (the declarations count for the whole font)
+            from fontTools.designspaceLib import AxisDescriptor, DesignSpaceDocument, SourceDescriptor
+
+            ds = DesignSpaceDocument()
+            ax = AxisDescriptor()
+            ax.name, ax.tag, ax.minimum, ax.default, ax.maximum = "Weight", "wght", 0, 0, 1000
+            ds.addAxis(ax)
+            bare = dict(spec, features="")
+            for nm_, sp_, w_ in (("bold", bare, 1000), ("regular", spec, 0)):
+                sd = SourceDescriptor()
+                sd.font, sd.name, sd.location = S.build(sp_, module), nm_, {"Weight": w_}
+                ds.addSource(sd)
+            t = ufo2ft.compileVariableTTF(ds, useProductionNames=False)
+            ctx.label("variable-font-default-source-listed-second")
+        else:
+            t = ufo2ft.compileTTF(S.build(spec, module), useProductionNames=False, featureWriters=writers)
         b = io.BytesIO()
         t.save(b)
     t = TTFont(io.BytesIO(b.getvalue()))
@@ -178,7 +217,16 @@ def run_case(case, ctx):
             checked += 1
             for ft in ("mark", "mkmk", "abvm", "blwm", "curs"):
                 if ft in feats and ft not in have and any(S_ in scx.get(g, set()) for g in feats[ft]):
-                    is_known = lang == "dflt" and tag not in declared and S_ in single and not case.get("no_exclusions")
+                    # KF-C20-1 concerns scripts the kern writer registers because kerning of theirs survives: some glyph of the script is covered by the kern/dist
+                    # lookups this language system reaches. A script registered without any such glyph is not that finding.
+                    kerned_here = set()
+                    for i in idx:
+                        fr_ = gp.FeatureList.FeatureRecord[i]
+                        if fr_.FeatureTag in ("kern", "dist"):
+                            for li in fr_.Feature.LookupListIndex:
+                                kerned_here |= lookup_glyphs(t, li) | second_glyphs(t, li)
+                    own_kerning = any(tag in ud.ot_tags_from_script(s_) for g in kerned_here for s_ in scx.get(g, set()))  # by OpenType tag: 'kana' serves Hira and Kana
+                    is_known = lang == "dflt" and tag not in declared and S_ in single and own_kerning and not case.get("no_exclusions")
                     if is_known:
                         known += 1
                         continue
